@@ -81,14 +81,18 @@ inductive ChunkEvent where
   | mixerParam (i : Nat)
 deriving DecidableEq, Repr
 
+/-- a modulator-linkable parameter together with the interpolation of its value type
+    (`f64`, or an `f32`-backed unit: Decibels, Panning, Mix, …) -/
+abbrev Reader (α : Type) := Tweenable α α × Parameter α α
+
 /-- The parts of the system that C17 talks about: the modulators and, for each later stage, the
     modulator-linkable parameters it updates (clock speeds; listener parameters; volumes, rates,
-    effect settings of tracks and sounds).  All reader parameters are `f64`/`f32`-valued here. -/
+    effect settings of tracks and sounds). -/
 structure ChunkState (μ α : Type) where
   mods : ModStore μ
-  clockParams : List (Parameter α α)
-  listenerParams : List (Parameter α α)
-  mixerParams : List (Parameter α α)
+  clockParams : List (Reader α)
+  listenerParams : List (Reader α)
+  mixerParams : List (Reader α)
 
 /-- the `Info` bases of the four stages (clock and listener state differ between stages: clocks are
     updated after the modulators, listeners after the clocks); their `modulator` field is ignored. -/
@@ -98,21 +102,20 @@ structure ChunkBases (α : Type) where
   forListeners : Info α
   forMixer : Info α
 
-def updateParams (tw : Tweenable α α) (dt : α) (info : Info α) (ps : List (Parameter α α)) :
-    List (Parameter α α) :=
-  ps.map (fun p => (p.update tw dt info).1)
+def updateReaders (dt : α) (info : Info α) (ps : List (Reader α)) : List (Reader α) :=
+  ps.map (fun r => (r.1, (r.2.update r.1 dt info).1))
 
 /-- mirrors: renderer.rs::Renderer::process_chunk — `dtFrame` = `1 / sample_rate`, `frames` = frames in
     this chunk.  Every stage gets `dtFrame * frames` (tracks and sounds compute the same product from
     `dt` and `out.len()`).  Returns the new state and the order of updates. -/
-def processChunk {μ : Type} (ops : ModOps μ α) (tw : Tweenable α α) (dtFrame : α) (frames : Nat)
+def processChunk {μ : Type} (ops : ModOps μ α) (dtFrame : α) (frames : Nat)
     (b : ChunkBases α) (s : ChunkState μ α) : ChunkState μ α × List ChunkEvent :=
   let dt := dtFrame * (KOps.ofNat frames : α)
   let r := s.mods.process ops dt b.forModulators
   let mods := r.1
-  let clocks := updateParams tw dt (readerInfo ops b.forClocks mods) s.clockParams
-  let listeners := updateParams tw dt (readerInfo ops b.forListeners mods) s.listenerParams
-  let mixer := updateParams tw dt (readerInfo ops b.forMixer mods) s.mixerParams
+  let clocks := updateReaders dt (readerInfo ops b.forClocks mods) s.clockParams
+  let listeners := updateReaders dt (readerInfo ops b.forListeners mods) s.listenerParams
+  let mixer := updateReaders dt (readerInfo ops b.forMixer mods) s.mixerParams
   ({ mods := mods, clockParams := clocks, listenerParams := listeners, mixerParams := mixer },
    r.2.map ChunkEvent.modulator
      ++ (List.range s.clockParams.length).map ChunkEvent.clockParam
